@@ -133,7 +133,7 @@ Section Core.
   Definition numLevels (L : Z) : Z := if L <? minLevel cv then 1 else levelMod cv.
 
   Lemma nonterminal_room : forall id L, valid_at id L -> newCand id = Some (id, false) ->
-    1 <= numLevels L <= 3 /\ L + numLevels L <= 30.
+    1 <= numLevels L <= 3 /\ L + numLevels L <= 30 /\ L + numLevels L <= Z.max (maxLevel cv) (minLevel cv).
   Proof.
     intros id L Hv H. destruct Hwf as (Hmin & Hmax & Hmod). unfold numLevels.
     unfold newCandidate in H. rewrite (level_spec _ _ Hv) in H.
@@ -281,7 +281,7 @@ Section Core.
   Lemma kidsOf_wf_q : forall id L t q, valid_at id L -> newCand id = Some (id, false) -> t = false ->
     q_id q = id -> q_children q = kidsOf (Z.to_nat (numLevels L - 1)) id -> wf_q q.
   Proof.
-    intros id L t q Hv Hn _ Hid Hch. destruct (nonterminal_room id L Hv Hn) as (Hnl & Hroom).
+    intros id L t q Hv Hn _ Hid Hch. destruct (nonterminal_room id L Hv Hn) as (Hnl & Hroom & HroomM).
     exists L. rewrite Hid, Hch. split; [exact Hv|]. split.
     - pose proof (kidsOf_ok (Z.to_nat (numLevels L - 1)) id L Hv ltac:(lia)) as HF.
       eapply Forall_impl; [|exact HF]. intros p Hp. exists (L + Z.of_nat (Z.to_nat (numLevels L - 1)) + 1).
@@ -326,10 +326,10 @@ Section Core.
     intros HI Hext (res, pq) id t L x Hv Hn Hx Hp Hin. unfold cov_of.
     destruct (addCandidate_cases res pq id t L Hv Hn) as [(-> & _)|[(-> & Ht & Hnil)|(q & -> & Ht & Hid & Hch)]]; cbn [fst snd].
     - apply covered_app. left. apply covered_app. right. apply covered_single. exact Hin.
-    - exfalso. subst t. destruct (nonterminal_room id L Hv Hn) as (Hnl & Hroom).
+    - exfalso. subst t. destruct (nonterminal_room id L Hv Hn) as (Hnl & Hroom & HroomM).
       pose proof (kidsOf_covers HI Hext (Z.to_nat (numLevels L - 1)) id L Hv ltac:(lia) x Hx Hp Hin) as Hc.
       rewrite Hnil in Hc. destruct Hc as (c & [] & _).
-    - subst t. destruct (nonterminal_room id L Hv Hn) as (Hnl & Hroom).
+    - subst t. destruct (nonterminal_room id L Hv Hn) as (Hnl & Hroom & HroomM).
       pose proof (kidsOf_covers HI Hext (Z.to_nat (numLevels L - 1)) id L Hv ltac:(lia) x Hx Hp Hin) as Hc.
       apply covered_app. right.
       eapply covered_perm; [apply kids_perm, heap_Push_perm|]. unfold kids. cbn [flat_map]. apply covered_app. left.
@@ -482,7 +482,8 @@ Section Core.
   Qed.
 
   (** ** Level discipline of candidates: at or above minLevel the level is minLevel + k * levelMod *)
-  Definition lvl_ok (L : Z) : Prop := minLevel cv <= L -> (L - minLevel cv) mod levelMod cv = 0.
+  Definition lvl_ok (L : Z) : Prop :=
+    (minLevel cv <= L -> (L - minLevel cv) mod levelMod cv = 0) /\ L <= Z.max (maxLevel cv) (minLevel cv).
 
   Definition lvl_q (q : qcand) : Prop :=
     (forall L, valid_at (q_id q) L -> lvl_ok L) /\
@@ -493,12 +494,13 @@ Section Core.
   Lemma lvl_ok_kids : forall id L, valid_at id L -> lvl_ok L -> newCand id = Some (id, false) ->
     Forall (fun p => forall Lk, valid_at (fst p) Lk -> lvl_ok Lk) (kidsOf (Z.to_nat (numLevels L - 1)) id).
   Proof.
-    intros id L Hv Hl Hn. destruct (nonterminal_room id L Hv Hn) as (Hnl & Hroom).
+    intros id L Hv Hl Hn. destruct (nonterminal_room id L Hv Hn) as (Hnl & Hroom & HroomM).
     pose proof (kidsOf_ok (Z.to_nat (numLevels L - 1)) id L Hv ltac:(lia)) as HF.
     eapply Forall_impl; [|exact HF]. intros p (Vp & _ & _) Lk Vk.
     pose proof (valid_at_unique _ _ _ Vp Vk) as <-.
     replace (L + Z.of_nat (Z.to_nat (numLevels L - 1)) + 1) with (L + numLevels L) by lia.
-    unfold lvl_ok in *. unfold numLevels in *. destruct Hwf as (Hmin & Hmax & Hmod).
+    unfold lvl_ok in *. split; [|exact HroomM]. destruct Hl as (Hl & _).
+    unfold numLevels in *. destruct Hwf as (Hmin & Hmax & Hmod).
     destruct (Z.ltb_spec L (minLevel cv)) as [Hlt|Hge]; intro Hge'.
     - replace (L + 1 - minLevel cv) with 0 by lia. apply Z.mod_0_l. lia.
     - specialize (Hl Hge). replace (L + levelMod cv - minLevel cv) with ((L - minLevel cv) + 1 * levelMod cv) by ring.
